@@ -55,7 +55,10 @@ def go_body(rng, recv, params, imports):
         if r < 0.35 and pkgs:
             p = rng.choice(pkgs)
             m = rng.choice(["Println", "Open", "New", "Join"])
-            lines.append("%s.%s(%s)" % (p, m, rng.choice(['"x"', "1", ", ".join(vars_[:1])])))
+            # arguments of every expression kind the front-end classifies: literals, identifiers, selectors, binary, index,
+            # type assertion, function literal (without statements), composite / unary
+            lines.append("%s.%s(%s)" % (p, m, rng.choice(['"x"', "1", ", ".join(vars_[:1]), "cfg.Name", "a + 1", "items[0]", "x.(string)",
+                                                          "func() {}", "&Order{}", '"a", cfg.Name, 2', "-1", "os.Args[1:]"])))
             calls.append((p, m))
             stmts.append({"k": "call", "recv": p, "fn": m})
         elif r < 0.55 and vars_:
@@ -79,6 +82,12 @@ def go_body(rng, recv, params, imports):
         else:
             lines.append("for i := 0; i < 2; i++ {\n\t}")
             stmts.append({"k": "other"})
+    if rng.random() < 0.35:
+        # a return as the last statement (a call in it is not a call statement; on a package it records nothing)
+        lines.append(rng.choice(["return", "return nil", "return 1", 'return "s", nil', "return v9", (pkgs[0] + '.Sprintf("x")') if pkgs else "return 0"]))
+        if not lines[-1].startswith("return"):
+            lines[-1] = "return " + lines[-1]
+        stmts.append({"k": "other"})
     return lines, calls, stmts
 
 
@@ -138,6 +147,11 @@ def go_file(rng, idx):
             for p, a in imports:
                 out.append('\t%s"%s"' % ((a + " ") if a else "", p))
             out.append(")")
+        out.append("")
+    if rng.random() < 0.4:
+        # package-level variables and constants: declare nothing the statement lists, and must not disturb the rest
+        out += rng.sample(['var defaultName = "x"', "const Max = 3", "var (\n\tcount = 1\n\tlabel string\n)", "var registry = map[string]int{}",
+                           "var handler func(int) string"], rng.choice([1, 2, 3]))
         out.append("")
     for kind, d in decls:
         if kind == "struct":
